@@ -382,6 +382,11 @@ def family():
         [cf('note', '"n/a"', ('max_length', '50')), cf('qty', '0', ('null', 'false'))],
         [add('extra', '7'), cf('note', None, ('max_length', '30')), cf('score', '-1', ('null', 'false'))],
         [cf('qty', '0', ('null', 'false')), cf('score', '-1', ('null', 'false')), add('extra', '7')],
+        # a field made NOT NULL and renamed away, its name taken over by another field that is then deleted
+        [cf('qty', '0', ('null', 'false')),
+         {'t': 'RenameField', 'model': 'Alpha', 'old': 'qty', 'new': 'stock', 'db_column': None, 'db_table': None},
+         {'t': 'RenameField', 'model': 'Alpha', 'old': 'score', 'new': 'qty', 'db_column': None, 'db_table': None},
+         {'t': 'DeleteField', 'model': 'Alpha', 'field': 'qty'}, add('extra', '7')],
         # a field renamed and renamed back in one batch (the optimiser folds the two into a rename onto itself),
         # then changes that rebuild the table
         [{'t': 'RenameField', 'model': 'Alpha', 'old': 'note', 'new': 'memo', 'db_column': None, 'db_table': None},
